@@ -46,11 +46,9 @@ def make(prop):
 CLAIMED = ["C01", "C02", "C03", "C04", "C05", "C06", "C07", "C09", "C10", "C11", "C12", "C13", "C14", "C17", "C18"]
 CHECKS = {p: make(p) for p in CLAIMED}
 
+import engine_m  # noqa: E402,F401  registers M_FUNCS
 try:
-    import engine_m  # registers M_FUNCS
-except ImportError:
-    pass
-try:
-    import engine_d  # registers D_FUNCS
-except ImportError:
-    pass
+    import engine_d  # noqa: F401  registers D_FUNCS
+except ImportError as _ex:
+    if "engine_d" not in str(_ex):
+        raise
